@@ -336,6 +336,61 @@ func cmdSigs(args []string) int {
 		inst.Close(ctx)
 	}
 
+	// requests of more than 256 entries through the gRPC handler objects (an instance of 261 accounts of its own):
+	// every position answered, every signature that position's account's over that position's data
+	{
+		bigFx, err := NewFixture(ctx, 9, 29, false)
+		if err != nil {
+			return 2
+		}
+		tblBig := map[string][]string{"client1": {}}
+		for w := 0; w < 9; w++ {
+			tblBig["client1"] = append(tblBig["client1"], fmt.Sprintf("Wallet %d", w+1))
+		}
+		inst, err := NewInstance(ctx, bigFx, InstanceOpts{AdminIPs: admin, Perms: permsFromTbl(tblBig)})
+		if err != nil {
+			return 2
+		}
+		hctx := ctxWithClient(ctx, "client1", "10.0.0.1")
+		for _, n := range []int{256, 257, 261} {
+			areq := &pb.SignBeaconAttestationsRequest{}
+			mreq := &pb.MultisignRequest{}
+			var datas []AttData
+			for i := 0; i < n; i++ {
+				a := bigFx.Accounts[i]
+				tag := sha256.Sum256([]byte(fmt.Sprintf("large request %d entry %d", n, i)))
+				d := AttData{Dom: mkDomain(domAttester, 0), Slot: uint64(n) * 32, Idx: uint64(i), BBR: tag[:], Src: &Checkpoint{uint64(n) - 1, fill32(0)}, Tgt: &Checkpoint{uint64(n), tag[:]}}
+				datas = append(datas, d)
+				areq.Requests = append(areq.Requests, &pb.SignBeaconAttestationRequest{Id: &pb.SignBeaconAttestationRequest_Account{Account: a.Path()}, Domain: d.Dom,
+					Data: &pb.AttestationData{Slot: d.Slot, CommitteeIndex: d.Idx, BeaconBlockRoot: d.BBR, Source: &pb.Checkpoint{Epoch: d.Src.Epoch, Root: d.Src.Root}, Target: &pb.Checkpoint{Epoch: d.Tgt.Epoch, Root: d.Tgt.Root}}})
+				mreq.Requests = append(mreq.Requests, &pb.SignRequest{Id: &pb.SignRequest_PublicKey{PublicKey: a.Key}, Domain: mkDomain(domRandao, 0), Data: tag[:]})
+			}
+			noteRequest("SignBeaconAttestations and Multisign of %d entries over distinct accounts through the gRPC handler objects", n)
+			ares, aerr := inst.Handler.SignBeaconAttestations(hctx, areq)
+			mres, merr := inst.Handler.Multisign(hctx, mreq)
+			requestDone()
+			if aerr != nil || merr != nil || len(ares.GetResponses()) != n || len(mres.GetResponses()) != n {
+				monFail = append(monFail, fmt.Sprintf("handler requests of %d entries: errors %v / %v, %d / %d responses", n, aerr, merr, len(ares.GetResponses()), len(mres.GetResponses())))
+				continue
+			}
+			bad := 0
+			for i := 0; i < n; i++ {
+				ar, mr := ares.GetResponses()[i], mres.GetResponses()[i]
+				okA := ar.GetState() == pb.ResponseState_SUCCEEDED && verifySig(ar.GetSignature(), attRoot(datas[i]), bigFx.Accounts[i].Key)
+				okM := mr.GetState() == pb.ResponseState_SUCCEEDED && verifySig(mr.GetSignature(), signingRoot(mreq.Requests[i].Data, mreq.Requests[i].Domain), bigFx.Accounts[i].Key)
+				if !okA || !okM {
+					bad++
+					if bad <= 2 {
+						monFail = append(monFail, fmt.Sprintf("handler requests of %d entries, position %d (key#%d): SignBeaconAttestations %s valid=%v, Multisign %s valid=%v (valid: the signature is that account's over that position's data)",
+							n, i, bigFx.Accounts[i].ID, ar.GetState(), okA, mr.GetState(), okM))
+					}
+				}
+			}
+			run.stats["large-handler-requests.positions"] += 2 * n
+		}
+		inst.Close(ctx)
+	}
+
 	// SHA-256 itself
 	for k := 0; k < 40; k++ {
 		in := rng.Bytes([]int{0, 1, 31, 32, 55, 56, 57, 63, 64, 65, 100, 119, 120, 128, 200}[k%15] + rng.Intn(3))
